@@ -483,3 +483,125 @@ SEEDS["C16_set_never_raises"] = ("C16", [(S, """    if hasattr(_treepath_storage
             "which PyTree the `?` annotation refers to."
         )
     if index is None:""", """    if index is None:""")], "C16.4")
+
+# ------------------------------------------------------------------------- C19
+GUARD = """                if (
+                    config.jaxtyping_disable
+                    or getattr(fn, "__no_type_check__", False)
+                    or getattr(wrapped_fn_holder[0](), "__no_type_check__", False)
+                ):
+                    return fn(*args, **kwargs)
+"""
+SEEDS["C19_disable_flag_ignored"] = ("C19", [(D, GUARD, """                if (
+                    getattr(fn, "__no_type_check__", False)
+                    or getattr(wrapped_fn_holder[0](), "__no_type_check__", False)
+                ):
+                    return fn(*args, **kwargs)
+""")], "C19.1")
+SEEDS["C19_guard_and_instead_of_or"] = ("C19", [(D, GUARD, """                if (
+                    config.jaxtyping_disable
+                    and getattr(fn, "__no_type_check__", False)
+                    or getattr(wrapped_fn_holder[0](), "__no_type_check__", False)
+                ):
+                    return fn(*args, **kwargs)
+""")], "C19.1")
+SEEDS["C19_guard_negated"] = ("C19", [(D, GUARD, """                if not (
+                    config.jaxtyping_disable
+                    or getattr(fn, "__no_type_check__", False)
+                    or getattr(wrapped_fn_holder[0](), "__no_type_check__", False)
+                ):
+                    return fn(*args, **kwargs)
+""")], "C19.1")
+SEEDS["C19_bind_before_guard"] = ("C19", [(D, """                __tracebackhide__ = True
+
+                if (
+                    config.jaxtyping_disable""", """                __tracebackhide__ = True
+                bound = param_signature.bind(*args, **kwargs)
+
+                if (
+                    config.jaxtyping_disable""")], "C19.1")
+SEEDS["C19_config_hoisted"] = ("C19", [(D, GUARD, """                if (
+                    disabled
+                    or getattr(fn, "__no_type_check__", False)
+                    or getattr(wrapped_fn_holder[0](), "__no_type_check__", False)
+                ):
+                    return fn(*args, **kwargs)
+"""), (D, """            wrapped_fn_holder = []  # Avoids introducing a reference cycle.""", """            wrapped_fn_holder = []  # Avoids introducing a reference cycle.
+            disabled = config.jaxtyping_disable""")], "C19.1")
+SEEDS["C19_case_sensitive_switch"] = ("C19", [(C, """        if value.lower() in ("0", "false"):
+            return False
+        elif value.lower() in ("1", "true"):""", """        if value in ("0", "false"):
+            return False
+        elif value in ("1", "true"):""")], "C19.2")
+SEEDS["C19_true_false_swapped"] = ("C19", [(C, """        if value.lower() in ("0", "false"):
+            return False""", """        if value.lower() in ("0", "false"):
+            return True""")], "C19.2")
+SEEDS["C19_other_strings_false"] = ("C19", [(C, """            return True
+        else:
+            raise ValueError(error)
+    else:""", """            return True
+        else:
+            return False
+    else:""")], "C19.2")
+SEEDS["C19_nonstr_truthiness"] = ("C19", [(C, """            raise ValueError(error)
+    else:
+        raise ValueError(error)""", """            raise ValueError(error)
+    else:
+        return bool(value)""")], "C19")
+SEEDS["C19_update_wrong_attribute"] = ("C19", [(C, "            self.jaxtyping_disable = _maybestr2bool(value, msg)", "            self.jaxtyping_disabled = _maybestr2bool(value, msg)")], "C19.3")
+SEEDS["C19_env_name_typo"] = ("C19", [(C, 'os.environ.get("JAXTYPING_DISABLE", "0")', 'os.environ.get("JAXTYPING_DISABLED", "0")')], "C19.3")
+SEEDS["C19_default_on"] = ("C19", [(C, 'os.environ.get("JAXTYPING_DISABLE", "0")', 'os.environ.get("JAXTYPING_DISABLE", "1")')], "C19.3")
+SEEDS["C19_passthrough_drops_kwargs"] = ("C19", [(D, GUARD, GUARD.replace("return fn(*args, **kwargs)", "return fn(*args)"))], "C19.1")
+TWINS["C19_twin_reordered_atoms"] = ("C19", [(D, GUARD, """                if (
+                    getattr(fn, "__no_type_check__", False)
+                    or config.jaxtyping_disable
+                    or getattr(wrapped_fn_holder[0](), "__no_type_check__", False)
+                ):
+                    return fn(*args, **kwargs)
+""")])
+TWINS["C19_twin_demorgan"] = ("C19", [(D, GUARD + """
+                # Raise bind-time errors before we do any shape analysis. (I.e. skip
+                # the pointless jaxtyping information for a non-typechecking failure.)
+                bound = param_signature.bind(*args, **kwargs)
+                bound.apply_defaults()
+
+                memos = push_shape_memo(bound.arguments)
+                try:
+                    # Put this in a separate frame to make debugging easier, without
+                    # just always ending up on the `pop_shape_memo` line below.
+                    return wrapped_fn_impl(args, kwargs, bound, memos)
+                finally:
+                    pop_shape_memo()
+""", """                if not (
+                    not config.jaxtyping_disable
+                    and not getattr(fn, "__no_type_check__", False)
+                    and not getattr(wrapped_fn_holder[0](), "__no_type_check__", False)
+                ):
+                    return fn(*args, **kwargs)
+                bound = param_signature.bind(*args, **kwargs)
+                bound.apply_defaults()
+                memos = push_shape_memo(bound.arguments)
+                try:
+                    return wrapped_fn_impl(args, kwargs, bound, memos)
+                finally:
+                    pop_shape_memo()
+""")])
+TWINS["C19_twin_parser_restructured"] = ("C19", [(C, """    if isinstance(value, bool):
+        return value
+    elif isinstance(value, str):
+        if value.lower() in ("0", "false"):
+            return False
+        elif value.lower() in ("1", "true"):
+            return True
+        else:
+            raise ValueError(error)
+    else:
+        raise ValueError(error)""", """    if isinstance(value, bool):
+        return value
+    if not isinstance(value, str):
+        raise ValueError(error)
+    if value.lower() in ["1", "true"]:
+        return True
+    if value.lower() in ["0", "false"]:
+        return False
+    raise ValueError(error)""")])
